@@ -623,7 +623,7 @@ def run(ctx):
 
             base_cells, cells = cells, []
             for k in range(ns):
-                for c in base_cells[: max(20, 1200 // ns)]:
+                for c in base_cells[: max(20, [1200, 2300, 3200][i % 3] // ns)]:
                     m = c.metadata
                     cells.append(_rebuild(c, metadata=_M2(risk_basis=m.risk_basis, country=m.country, currency=m.currency,
                                                            reinsurance_basis=m.reinsurance_basis, loss_definition=m.loss_definition,
